@@ -601,7 +601,7 @@ structure EnvelopeSafe (co : Str → Str) (a : Accepted) : Prop where
 (`tryDelivery` builds `newRcpts` by walking `meta.To`) -/
 def StepOK : Step → Prop
   | .restart => True
-  | .attempt _ next => ∀ to r, r ∈ next to → r ∈ to
+  | .attempt _ next _ => ∀ to r, r ∈ next to → r ∈ to
 
 /-- metadata `m` carries the accepted envelope with pending list `to` -/
 structure Agrees (a : Accepted) (to : List Str) (m : QMeta) : Prop where
@@ -652,6 +652,51 @@ theorem docs_append (x y : List Ev) : docs (x ++ y) = docs x ++ docs y := by
   | nil => rfl
   | cons e x ih => cases e <;> simp [docs, ih]
 
+theorem reports_append (x y : List Ev) : reports (x ++ y) = reports x ++ reports y := by
+  induction x with
+  | nil => rfl
+  | cons e x ih => cases e <;> simp [reports, ih]
+
+/-- `emitDSN` shows nothing to the downstream target and writes nothing to the spool -/
+theorem seens_emitDSN (m : QMeta) (h : Header) (dsn : Option Dsn) : seens (emitDSN m h dsn) = [] := by
+  cases dsn with
+  | none => simp [emitDSN, seens]
+  | some c =>
+    simp only [emitDSN]
+    split
+    · simp [seens]
+    · split
+      · simp [seens]
+      · split <;> simp [seens]
+
+theorem docs_emitDSN (m : QMeta) (h : Header) (dsn : Option Dsn) : docs (emitDSN m h dsn) = [] := by
+  cases dsn with
+  | none => simp [emitDSN, docs]
+  | some c =>
+    simp only [emitDSN]
+    split
+    · simp [docs]
+    · split
+      · simp [docs]
+      · split <;> simp [docs]
+
+/-- a report quotes the header `emitDSN` was given, goes to `meta.From`, in the format of the
+original message's SMTPUTF8 flag -/
+theorem reports_emitDSN (m : QMeta) (h : Header) (dsn : Option Dsn) :
+    ∀ r ∈ reports (emitDSN m h dsn), r = ⟨m.sender, m.msgMeta.utf8, h⟩ := by
+  intro r hr
+  cases dsn with
+  | none => simp [emitDSN, reports] at hr
+  | some c =>
+    simp only [emitDSN] at hr
+    split at hr
+    · simp [reports] at hr
+    · split at hr
+      · simp [reports] at hr
+      · split at hr
+        · simpa [reports] using hr
+        · simp [reports] at hr
+
 theorem runFrom_gone (vis : Vis) (co : Str → Str) (steps : List Step) :
     ∀ s : St, s.disk = none → (runFrom vis co s steps).2 = [] ∧ (runFrom vis co s steps).1.disk = none := by
   induction steps with
@@ -677,22 +722,22 @@ theorem seenOf_agrees {a : Accepted} {to : List Str} {m : QMeta} (hm : Agrees a 
 theorem attempt_spec {vis : Vis} {co : Str → Str} {a : Accepted} (hv : VisOK vis)
     (hs : EnvelopeSafe co a) {to : List Str} (hsafe : ∀ r ∈ to, co r = r)
     {d : Disk} {m : QMeta} (hd1 : d.hdrFile = writeHeader a.hdr) (hd2 : d.bodyFile = a.body)
-    (hm : Agrees a to m) (acc : List Str → Bool) (next : List Str → List Str)
+    (hm : Agrees a to m) (acc : List Str → Bool) (next : List Str → List Str) (dsn : Option Dsn)
     (hn : ∀ r, r ∈ next to → r ∈ to) :
-    seens (attempt vis co d m a.hdr acc next).2 =
+    seens (attempt vis co d m a.hdr acc next dsn).2 =
       [{ sender := a.qmeta.sender, to := to, utf8 := a.qmeta.msgMeta.utf8,
          requireTLS := a.qmeta.msgMeta.requireTLS,
          tlsRequireOverride := a.qmeta.msgMeta.tlsRequireOverride,
          originalRcpts := a.qmeta.msgMeta.originalRcpts,
          content := if acc to then some (a.hdr, a.body) else none }] ∧
-    (next to = [] → (attempt vis co d m a.hdr acc next).1.disk = none) ∧
-    (next to ≠ [] → Inv a (next to) (attempt vis co d m a.hdr acc next).1) := by
+    (next to = [] → (attempt vis co d m a.hdr acc next dsn).1.disk = none) ∧
+    (next to ≠ [] → Inv a (next to) (attempt vis co d m a.hdr acc next dsn).1) := by
   have hmto := hm.to
   refine ⟨?_, ?_, ?_⟩
   · unfold attempt
     by_cases hne : next to = []
-    · simp [hne, seens, hd2, seenOf_agrees hm, hmto]
-    · simp [hne, seens, hd2, seenOf_agrees hm, hmto]
+    · simp [hne, seens, seens_append, seens_emitDSN, hd2, seenOf_agrees hm, hmto]
+    · simp [hne, seens, seens_append, seens_emitDSN, hd2, seenOf_agrees hm, hmto]
   · intro hne
     unfold attempt
     simp [hmto, hne]
@@ -732,12 +777,12 @@ theorem runFrom_spec {vis : Vis} {co : Str → Str} {a : Accepted} (hv : VisOK v
       have := ih hrest to _ hsafe hi'
       simp only [runFrom, hstep, attemptsOf]
       simpa using this
-    | attempt acc next =>
+    | attempt acc next dsn =>
       have hok : ∀ r, r ∈ next to → r ∈ to := by
-        have := hsteps (.attempt acc next) (by simp)
+        have := hsteps (.attempt acc next dsn) (by simp)
         exact fun r => this to r
       -- the attempt runs with metadata agreeing with the accepted envelope and the accepted header
-      have key : ∃ m, Agrees a to m ∧ step vis co s (.attempt acc next) = attempt vis co d m a.hdr acc next := by
+      have key : ∃ m, Agrees a to m ∧ step vis co s (.attempt acc next dsn) = attempt vis co d m a.hdr acc next dsn := by
         cases hslot : s.slot with
         | some mh =>
           obtain ⟨m, h⟩ := mh
@@ -747,7 +792,7 @@ theorem runFrom_spec {vis : Vis} {co : Str → Str} {a : Accepted} (hv : VisOK v
           refine ⟨d.metaFile, hag, ?_⟩
           simp [step, hd, hi.sched, hslot, h1, C10_header_roundtrip a.hdr hwf]
       obtain ⟨m, hm, hstep⟩ := key
-      obtain ⟨hseen, hgone, hinv⟩ := attempt_spec hv hs hsafe h1 h2 hm acc next hok
+      obtain ⟨hseen, hgone, hinv⟩ := attempt_spec hv hs hsafe h1 h2 hm acc next dsn hok
       simp only [runFrom, hstep, attemptsOf, spec, seens_append, hseen]
       by_cases hne : next to = []
       · have hg := runFrom_gone vis co rest _ (hgone hne)
@@ -827,11 +872,11 @@ theorem runFrom_pending {vis : Vis} {co : Str → Str} {a : Accepted} (hv : VisO
       simp only [attemptsOf] at hp ⊢
       have := ih hrest to _ hsafe hi' hp
       simpa [runFrom, hstep] using this
-    | attempt acc next =>
+    | attempt acc next dsn =>
       have hok : ∀ r, r ∈ next to → r ∈ to := by
-        have := hsteps (.attempt acc next) (by simp)
+        have := hsteps (.attempt acc next dsn) (by simp)
         exact fun r => this to r
-      have key : ∃ m, Agrees a to m ∧ step vis co s (.attempt acc next) = attempt vis co d m a.hdr acc next := by
+      have key : ∃ m, Agrees a to m ∧ step vis co s (.attempt acc next dsn) = attempt vis co d m a.hdr acc next dsn := by
         cases hslot : s.slot with
         | some mh =>
           obtain ⟨m, h⟩ := mh
@@ -841,7 +886,7 @@ theorem runFrom_pending {vis : Vis} {co : Str → Str} {a : Accepted} (hv : VisO
           refine ⟨d.metaFile, hag, ?_⟩
           simp [step, hd, hi.sched, hslot, h1, C10_header_roundtrip a.hdr hwf]
       obtain ⟨m, hm, hstep⟩ := key
-      obtain ⟨_, _, hinv⟩ := attempt_spec hv hs hsafe h1 h2 hm acc next hok
+      obtain ⟨_, _, hinv⟩ := attempt_spec hv hs hsafe h1 h2 hm acc next dsn hok
       simp only [attemptsOf, pendingAfter] at hp ⊢
       by_cases hne : next to = []
       · simp [hne] at hp
@@ -910,20 +955,201 @@ theorem C10_every_attempt_step_is_an_attempt (co : Str → Str) (a : Accepted)
   rw [C10_roundtrip co a hwf hs steps hsteps]
   exact spec_length_of_pending a _ _ hp
 
+
+/-! ## failure reports (bounces) generated between attempts -/
+
+theorem attempt_reports {vis : Vis} {co : Str → Str} {a : Accepted} {to : List Str} {d : Disk}
+    {m : QMeta} (hm : Agrees a to m) (acc : List Str → Bool) (next : List Str → List Str)
+    (dsn : Option Dsn) :
+    ∀ r ∈ reports (attempt vis co d m a.hdr acc next dsn).2,
+      r = ⟨a.qmeta.sender, a.qmeta.msgMeta.utf8, a.hdr⟩ := by
+  intro r hr
+  unfold attempt at hr
+  by_cases hne : next m.to = []
+  · simp [hne, reports, reports_append] at hr
+    have := reports_emitDSN m a.hdr dsn r hr
+    simpa [hm.sender, hm.utf8] using this
+  · simp [hne, reports, reports_append] at hr
+    have := reports_emitDSN m a.hdr dsn r hr
+    simpa [hm.sender, hm.utf8] using this
+
+theorem runFrom_reports {vis : Vis} {co : Str → Str} {a : Accepted} (hv : VisOK vis)
+    (hwf : ∀ f ∈ a.hdr, WFField f) (hs : EnvelopeSafe co a) (steps : List Step)
+    (hsteps : ∀ st ∈ steps, StepOK st) :
+    ∀ (to : List Str) (s : St), (∀ r ∈ to, co r = r) → Inv a to s →
+      ∀ r ∈ reports (runFrom vis co s steps).2, r = ⟨a.qmeta.sender, a.qmeta.msgMeta.utf8, a.hdr⟩ := by
+  induction steps with
+  | nil => intro to s _ _ r hr; simp [runFrom, reports] at hr
+  | cons st rest ih =>
+    intro to s hsafe hi r hr
+    have hrest : ∀ st ∈ rest, StepOK st := fun x hx => hsteps x (by simp [hx])
+    obtain ⟨d, hd, h1, h2, hag, h4⟩ := hi.disk
+    cases st with
+    | restart =>
+      have hstep : step vis co s .restart = ({ s with slot := none, scheduled := true }, []) := by
+        simp [step, hd]
+      have hi' : Inv a to { s with slot := none, scheduled := true } :=
+        ⟨rfl, ⟨d, hd, h1, h2, hag, h4⟩, by intro m h hc; simp at hc⟩
+      simp only [runFrom, hstep, List.nil_append] at hr
+      exact ih hrest to _ hsafe hi' r hr
+    | attempt acc next dsn =>
+      have hok : ∀ r, r ∈ next to → r ∈ to := by
+        have := hsteps (.attempt acc next dsn) (by simp)
+        exact fun r => this to r
+      have key : ∃ m, Agrees a to m ∧ step vis co s (.attempt acc next dsn) = attempt vis co d m a.hdr acc next dsn := by
+        cases hslot : s.slot with
+        | some mh =>
+          obtain ⟨m, h⟩ := mh
+          obtain ⟨hm, hh⟩ := hi.slot m h hslot
+          exact ⟨m, hm, by simp [step, hd, hi.sched, hslot, hh]⟩
+        | none =>
+          refine ⟨d.metaFile, hag, ?_⟩
+          simp [step, hd, hi.sched, hslot, h1, C10_header_roundtrip a.hdr hwf]
+      obtain ⟨m, hm, hstep⟩ := key
+      obtain ⟨_, hgone, hinv⟩ := attempt_spec hv hs hsafe h1 h2 hm acc next dsn hok
+      simp only [runFrom, hstep, reports_append, List.mem_append] at hr
+      rcases hr with hr | hr
+      · exact attempt_reports hm acc next dsn r hr
+      · by_cases hne : next to = []
+        · have hg := runFrom_gone vis co rest _ (hgone hne)
+          simp [hg.1, reports] at hr
+        · have hsafe' : ∀ r ∈ next to, co r = r := fun r hr => hsafe r (hok r hr)
+          exact ih hrest (next to) _ hsafe' (hinv hne) r hr
+
+/-- **C10 (reports).** Every failure report the queue generates for an accepted message - in
+whichever attempt, from memory or after any number of restarts - quotes the ACCEPTED header, is
+sent to the accepted sender and is generated/sent with the SMTPUTF8 flag the message was accepted
+with (the report generator is handed what the downstream target is handed). -/
+theorem C10_reports_quote_the_accepted_message (co : Str → Str) (a : Accepted)
+    (hwf : ∀ f ∈ a.hdr, WFField f) (hs : EnvelopeSafe co a) (steps : List Step)
+    (hsteps : ∀ st ∈ steps, StepOK st) :
+    ∀ r ∈ reports (run genVis co a steps).2,
+      r.to = a.qmeta.sender ∧ r.utf8 = a.qmeta.msgMeta.utf8 ∧ r.hdr = a.hdr := by
+  intro r hr
+  simp only [run, reports_append, List.mem_append] at hr
+  rcases hr with hr | hr
+  · simp [accept, reports] at hr
+  · have := runFrom_reports visOK_generated hwf hs steps hsteps a.qmeta.to _ hs.to
+      (accept_inv visOK_generated hs) r hr
+    subst this
+    exact ⟨rfl, rfl, rfl⟩
+
+/-- the same history with the bounce pipeline taken away -/
+def noBounce : Step → Step
+  | .attempt acc next _ => .attempt acc next none
+  | .restart => .restart
+
+def notReport : Ev → Bool
+  | .report _ => false
+  | .reportFailed => false
+  | .seen _ _ => true
+  | .readError => true
+  | .wrote _ => true
+  | .removed => true
+
+theorem filter_notReport_emitDSN (m : QMeta) (h : Header) (dsn : Option Dsn) :
+    (emitDSN m h dsn).filter notReport = [] := by
+  cases dsn with
+  | none => simp [emitDSN]
+  | some c =>
+    simp only [emitDSN]
+    split
+    · simp
+    · split
+      · simp
+      · split <;> simp [notReport]
+
+theorem step_noBounce (vis : Vis) (co : Str → Str) (s : St) (st : Step) :
+    (step vis co s (noBounce st)).1 = (step vis co s st).1 ∧
+    (step vis co s (noBounce st)).2 = (step vis co s st).2.filter notReport := by
+  have hatt : ∀ (d : Disk) (m : QMeta) (h : Header) acc next dsn,
+      (attempt vis co d m h acc next none).1 = (attempt vis co d m h acc next dsn).1 ∧
+      (attempt vis co d m h acc next none).2 = (attempt vis co d m h acc next dsn).2.filter notReport := by
+    intro d m h acc next dsn
+    have h0 : emitDSN m h none = [] := rfl
+    unfold attempt
+    by_cases hne : next m.to = []
+    · simp [hne, h0, notReport, List.filter_cons, List.filter_append, filter_notReport_emitDSN]
+    · simp [hne, h0, notReport, List.filter_cons, List.filter_append, filter_notReport_emitDSN]
+  cases st with
+  | restart => cases hd : s.disk <;> simp [noBounce, step, hd]
+  | attempt acc next dsn =>
+    cases hd : s.disk with
+    | none => simp [noBounce, step, hd]
+    | some d =>
+      by_cases hsch : s.scheduled = true
+      · cases hslot : s.slot with
+        | some mh =>
+          obtain ⟨m, h⟩ := mh
+          simpa [noBounce, step, hd, hsch, hslot] using hatt d m h acc next dsn
+        | none =>
+          cases hr : readHeader d.hdrFile with
+          | error e => simp [noBounce, step, hd, hsch, hslot, hr, List.filter_cons, notReport]
+          | ok h => simpa [noBounce, step, hd, hsch, hslot, hr] using hatt d d.metaFile h acc next dsn
+      · simp [noBounce, step, hd, hsch]
+
+theorem runFrom_noBounce (vis : Vis) (co : Str → Str) (steps : List Step) :
+    ∀ s : St, (runFrom vis co s (steps.map noBounce)).1 = (runFrom vis co s steps).1 ∧
+      (runFrom vis co s (steps.map noBounce)).2 = (runFrom vis co s steps).2.filter notReport := by
+  induction steps with
+  | nil => intro s; simp [runFrom]
+  | cons st rest ih =>
+    intro s
+    obtain ⟨h1, h2⟩ := step_noBounce vis co s st
+    have := ih (step vis co s st).1
+    simp only [List.map_cons, runFrom, List.filter_append]
+    rw [h1, h2]
+    exact ⟨this.1, by rw [this.2]⟩
+
+/-- **C10 (generating a report changes nothing), unconditional.** For ANY message (any header, well
+formed or not, any envelope), any field visibility and any history: whether or not failure reports
+are generated along the way - for whichever recipients, successfully or not - the queue ends in
+the same state (same spool files, same schedule, same in-memory slot) and every other event (what
+the downstream target is handed in each attempt, every metadata document written, read errors,
+removal) is the same, in the same order. -/
+theorem C10_reports_change_nothing (vis : Vis) (co : Str → Str) (a : Accepted) (steps : List Step) :
+    (run vis co a (steps.map noBounce)).1 = (run vis co a steps).1 ∧
+    (run vis co a (steps.map noBounce)).2 = (run vis co a steps).2.filter notReport := by
+  obtain ⟨h1, h2⟩ := runFrom_noBounce vis co steps (accept vis co a).1
+  simp only [run, List.filter_append]
+  exact ⟨h1, by rw [h2]; simp [accept, List.filter_cons, notReport]⟩
+
+/-- **C10 (two consumers of one message).** A source (the message pipeline) hands the same header,
+body and metadata to two queues with their own recipients; each of them hands ITS target the
+accepted message on every attempt of ITS history, whatever the other one does meanwhile (bounces
+included): the model has no state shared between the two. -/
+theorem C10_two_queues (co : Str → Str) (a : Accepted) (toB : List Str)
+    (hwf : ∀ f ∈ a.hdr, WFField f) (hs : EnvelopeSafe co a) (hsB : ∀ r ∈ toB, co r = r)
+    (stepsA stepsB : List Step) (hA : ∀ st ∈ stepsA, StepOK st) (hB : ∀ st ∈ stepsB, StepOK st) :
+    seens (run genVis co a stepsA).2 = spec a a.qmeta.to (attemptsOf stepsA) ∧
+    seens (run genVis co { a with qmeta := { a.qmeta with to := toB } } stepsB).2 =
+      spec a toB (attemptsOf stepsB) := by
+  refine ⟨C10_roundtrip co a hwf hs stepsA hA, ?_⟩
+  have hs' : EnvelopeSafe co { a with qmeta := { a.qmeta with to := toB } } := ⟨hs.sender, hsB, hs.orc⟩
+  have := C10_roundtrip co { a with qmeta := { a.qmeta with to := toB } } hwf hs' stepsB hB
+  rw [this]
+  have hspec : ∀ (atts : List ((List Str → Bool) × (List Str → List Str))) (to : List Str),
+      spec { a with qmeta := { a.qmeta with to := toB } } to atts = spec a to atts := by
+    intro atts
+    induction atts with
+    | nil => intro to; simp [spec]
+    | cons x rest ih => intro to; obtain ⟨acc, next⟩ := x; simp [spec, ih]
+  exact hspec _ _
+
 theorem step_docs_no_conn (vis : Vis) (co : Str → Str) (s : St) (st : Step) :
     ∀ doc ∈ docs (step vis co s st).2, doc.msgMeta.conn = none := by
   intro doc hdoc
   cases st with
   | restart =>
     cases hd : s.disk <;> simp [step, hd, docs] at hdoc
-  | attempt acc next =>
+  | attempt acc next dsn =>
     have hatt : ∀ (d : Disk) (m : QMeta) (h : Header),
-        doc ∈ docs (attempt vis co d m h acc next).2 → doc.msgMeta.conn = none := by
+        doc ∈ docs (attempt vis co d m h acc next dsn).2 → doc.msgMeta.conn = none := by
       intro d m h hmem
       unfold attempt at hmem
       by_cases hne : next m.to = []
-      · simp [hne, docs] at hmem
-      · simp [hne, docs] at hmem
+      · simp [hne, docs, docs_append, docs_emitDSN] at hmem
+      · simp [hne, docs, docs_append, docs_emitDSN] at hmem
         subst hmem
         simp [encodeMeta]
     cases hd : s.disk with
@@ -1008,8 +1234,8 @@ def exCo : Str → Str := fun s => if s = 8 then 88 else s
 /-- first attempt: 3 keeps trying, 4 delivered, 5 keeps trying; restart; restart; second attempt:
 nobody accepted, 3 stays; third: 3 delivered -/
 def exSteps : List Step :=
-  [.attempt (fun _ => true) (fun to => to.filter (· != 4)), .restart, .restart,
-   .attempt (fun _ => false) (fun to => to.filter (· == 3)), .attempt (fun _ => true) (fun _ => [])]
+  [.attempt (fun _ => true) (fun to => to.filter (· != 4)) none, .restart, .restart,
+   .attempt (fun _ => false) (fun to => to.filter (· == 3)) none, .attempt (fun _ => true) (fun _ => []) none]
 
 example : (∀ f ∈ exAccepted.hdr, WFField f) := by
   intro f hf
@@ -1043,16 +1269,53 @@ example : ((run (fun _ => true) exCo { exAccepted with body := [] } (.restart ::
 example : ((run (fun _ => true) exCo exAccepted exSteps).2.filterMap fun e =>
     match e with | .seen _ c => some c | _ => none) = [true, false, false] := by decide
 
+
+/-- the example message with a non-null sender (2), accepted WITHOUT SMTPUTF8 -/
+def exAcceptedB : Accepted :=
+  { exAccepted with qmeta := { exAccepted.qmeta with sender := 2, msgMeta :=
+      { exAccepted.qmeta.msgMeta with originalFrom := 2, utf8 := false } } }
+
+/-- a bounce pipeline; address 5 has a Unicode local part (no ASCII form) -/
+def exDsn (failed : List Str → List Str) : Option Dsn :=
+  some { failed := failed, reportable := fun u s => u || s != 5 }
+
+/-- first attempt (from memory): 4 is given up (report), 3 and 5 stay; restart; second attempt (from
+the spool): 5 is given up - no report can be generated in the ASCII format -, 3 stays; third: 3 is
+given up (report) -/
+def exStepsB : List Step :=
+  [.attempt (fun _ => true) (fun to => to.filter (· != 4)) (exDsn fun to => to.filter (· == 4)), .restart,
+   .attempt (fun _ => true) (fun to => to.filter (· == 3)) (exDsn fun to => to.filter (· == 5)),
+   .attempt (fun _ => false) (fun _ => []) (exDsn id)]
+
+/-- `C10_reports_quote_the_accepted_message` is not vacuous: two reports are generated (one from
+memory, one after a restart), one generation fails - and the attempts are what they are without a
+bounce pipeline, SMTPUTF8 still off in every one of them -/
+example : reports (run (fun _ => true) exCo exAcceptedB exStepsB).2 =
+    [⟨2, false, exAcceptedB.hdr⟩, ⟨2, false, exAcceptedB.hdr⟩] := by decide
+example : ((run (fun _ => true) exCo exAcceptedB exStepsB).2.filter fun e =>
+    match e with | .reportFailed => true | _ => false).length = 1 := by decide
+example : (seens (run (fun _ => true) exCo exAcceptedB exStepsB).2).map (fun s => (s.to, s.utf8)) =
+    [([3, 4, 5], false), ([3, 5], false), ([3], false)] := by decide
+example : ∀ st ∈ exStepsB, StepOK st := by
+  intro st hst
+  simp [exStepsB] at hst
+  rcases hst with rfl | rfl | rfl | rfl
+  · intro to r h; exact (List.mem_filter.mp h).1
+  · trivial
+  · intro to r h; exact (List.mem_filter.mp h).1
+  · intro to r h; simp at h
+example : EnvelopeSafe exCo exAcceptedB := ⟨by decide, by decide, by decide⟩
+
 /-- Why `EnvelopeSafe` is needed (the defect repaired at the endpoint): a recipient that is not
 valid UTF-8 (string 8) reaches the target as 8 from memory but as 88 after the spool. -/
 theorem C10_envelope_safe_is_needed :
     (seens (run (fun _ => true) exCo { exAccepted with qmeta := { exAccepted.qmeta with to := [8] } }
-      [.attempt (fun _ => true) id, .attempt (fun _ => true) id]).2).map (·.to) = [[8], [88]] := by decide
+      [.attempt (fun _ => true) id none, .attempt (fun _ => true) id none]).2).map (·.to) = [[8], [88]] := by decide
 
 /-- Why the visibility obligations matter: were `TLSRequireOverride` hidden from `encoding/json`
 (e.g. tagged `json:"-"`), retries would lose the override. -/
 example : (seens (run (fun p => p != ["MsgMeta", "TLSRequireOverride"]) id exAccepted
-      [.attempt (fun _ => true) id, .attempt (fun _ => true) id]).2).map (·.tlsRequireOverride) = [true, false] := by
+      [.attempt (fun _ => true) id none, .attempt (fun _ => true) id none]).2).map (·.tlsRequireOverride) = [true, false] := by
   decide
 
 end MaddyVerif.C10
